@@ -40,7 +40,11 @@ def run(ctx):
     props = check_props(ctx.pid)
     model = build_model()
     impl = build_impl()
-    cases = gen_cases(ctx)
+    cases = []
+    for f in sorted((VERIF / "corpus" / "C17").glob("*.json")):
+        cases += json.load(open(f))
+    ctx.cov["corpus_cases"] = len(cases)
+    cases += gen_cases(ctx)
     sd, dd = dump_all(impl, [c["schema"] for c in cases], [c["doc"] for c in cases])
     ctx.cov["discarded_schema_invalid"] = sum(1 for v in sd.values() if v is None)
     ctx.cov["discarded_doc_syntax"] = sum(1 for v in dd.values() if v is None)
@@ -69,6 +73,47 @@ def run(ctx):
             for k in io.split(" ", 1)[1].split(","):
                 kinds[k] += 1
     ctx.cov["impl_diagnostic_kinds"] = dict(sorted(kinds.items()))
+    for c, io, mo in rows:
+        if c["label"].startswith("corpus-"):
+            ctx.sample({"label": c["label"], "doc": c["doc"], "impl": io, "spec": mo,
+                        "known_classes": c.get("known_classes")}, limit=20)
+    ctx.cov["rule"] = (
+        "two-stage tie: generated GraphQL text is parsed by the real parser (ast_dump) and the schema built and "
+        "validated by the real builder (schema_dump b); the extracted specification xv_exec_valid (Exec/Valid.v, "
+        "apollo parameters) gives a verdict on those, ExecutableDocument::parse_and_validate gives the other; only "
+        "valid/invalid is compared.  Cases: per generated schema (objects, interfaces, unions, enums, input objects with "
+        "defaults and required fields, lists, non-null, custom scalars, custom directives with locations/repeatable, "
+        "mutation and subscription roots) documents valid by construction, ~90 rule-directed mutants of some of them "
+        "(c17_gen.mutate), and directed enumerations over the schema (c17_gen.directed: pairs of fields under one "
+        "response key under same/different-object/abstract parents at one and two levels, duplicated fields with "
+        "argument variants, every literal kind at every list depth and in input fields, variables of every type "
+        "variant at top level / in lists / in input fields with null and non-null defaults, custom-scalar literals, "
+        "every directive at every location once and twice with argument variants, subscription shapes, fragment "
+        "graphs (cycles of length 1-4 through inline fragments and fields, diamonds, side cycles), every (parent, "
+        "type condition) pair, leaf/composite selections, introspection fields).  per_rule counts, per rule of "
+        "section 5, the cases that violate it alone / with others / satisfy it (by the specification's vector).  "
+        "A disagreement is KNOWN only if the specification with the switch(es) of Exec/Known.v for listed classes "
+        "reproduces the implementation's verdict.  Documents beyond apollo's internal limits (xv_within_limits: "
+        "fewer than 100 fragments and (fragments+1)*(deepest selection+1) <= 128, a conservative bound for the fragment chain limit 100 and "
+        "FIELD_DEPTH_LIMIT 128) are outside the range and counted as outside_limits.  Inside modelrun the literal models "
+        "of selection.rs (MergeXing.v) and fragment.rs (FragCycles.v) are compared with the specification's rules on "
+        "every case (literal_merging_vs_spec, literal_cycles_vs_spec); a difference is reported as a violation.")
+    ctx.cov["exhaustive"] = False
+    ctx.assumptions += [
+        "the specification model (Exec/Valid.v) is a hand transcription of section 5 of the October 2021 text; "
+        "where the prose is ambiguous graphql-js 16's reading is taken (comments name the paragraphs): fragments must "
+        "be used = reachable from an operation; a spread on the parent type itself is always possible "
+        "(xp_same_type_spread_always_possible); list entries written for a non-list type are expected to have that "
+        "type, object fields written for a custom scalar have no expected type; Float literals must be finite",
+        "deliberate differences are parameters: xp_reject_undefined_root_operation, xp_subscription_skip_include_rule, "
+        "xp_same_type_spread_always_possible are modelled and on; xp_defer_rules is NOT modelled: the generator never "
+        "writes @defer or @stream (they are not defined by the generated schemas)",
+        "agreement of the code with xv_exec_valid on all rules is carried by this tie (partial by construction); the "
+        "theorems of Props/C17.v are about the literal models of fragment cycle detection and of parts of field merging",
+        "not generated: block strings, descriptions, variables in default values or in directives on variable "
+        "definitions, more than 20 arguments on one field (ArgumentLookup::Map), documents with syntax errors, "
+        "Float literals within one ulp of the largest double, schemas that do not validate",
+    ]
     return ctx.finish(props)
 
 
